@@ -164,6 +164,22 @@ Theorem C17_passwd_edit_refuted :
 Proof. exists wP0, wP1, 2000, 1000, 100, sP. exact passwd_edit_witness. Qed.
 Print Assumptions C17_passwd_edit_refuted.
 
+(* REFUTED for the code as it is — "a failed refresh keeps the old map" when the failure is SILENT: a refresh that runs
+   while munged has no free descriptor cannot open the group database (EMFILE); getgrent_r then reports the end of the
+   database, not an error (delivered_by_scan false db = []); _gids_map_create succeeds with the empty map and
+   _gids_map_update installs it.  alice is listed in group 100 by databases that never changed, the answer was yes, and
+   after that refresh it is no — for every time and mtime (mtime check off).  Open known finding F-C17-emfile-empty-map;
+   replayed live in the thorough tier (tools/props/c17.py live_emfile_phase). *)
+Theorem C17_silent_open_failure_refuted :
+  is_member (g_map stE0) 1000 100 = true /\ member_spec pwA [(100, [alice])] 1000 100 /\
+  map_create pwA (delivered_by_scan false [(100, [alice])]) [] = Some [] /\
+  forall (now : Z) (mtime : option Z),
+    g_map (refresh stE0 now mtime pwA (delivered_by_scan false [(100, [alice])]) []) = Some [] /\
+    is_member (g_map (refresh stE0 now mtime pwA (delivered_by_scan false [(100, [alice])]) [])) 1000 100 = false /\
+    is_member (g_map (refresh stE0 now mtime pwA (delivered_by_scan true [(100, [alice])]) [])) 1000 100 = true.
+Proof. exact silent_open_failure_witness. Qed.
+Print Assumptions C17_silent_open_failure_refuted.
+
 (* non-vacuity: duplicate gid entries, a duplicate member, an unknown user, two names
    with one uid, the reserved uid, an empty name; one ERANGE restart; a reload *)
 Example C17_example :
